@@ -188,14 +188,13 @@ func transCase(t *mon.T, which string, op string, c dec.Ctx, x, y dec.D) {
 	}
 	if o.Err != nil {
 		msg := o.Err.Error()
-		switch {
-		case strings.Contains(msg, "exponent out of range"), strings.Contains(msg, "too many iterations"), strings.Contains(msg, "0 Precision"):
-			// documented system limits are not results
-			t.Skip("error:" + op + ":" + firstWords(msg, 3))
-		case strings.Contains(msg, "did not converge"):
+		t.Count("error/" + op)
+		if strings.Contains(msg, "did not converge") {
 			fail("no-result", "", "error instead of a result: "+firstWords(msg, 12), nil)
-		default:
-			fail("unexpected-error", "", "error with an empty trap set: "+firstWords(msg, 12), nil)
+		} else {
+			// system limits (exponent range, iteration cap, zero precision) are not
+			// results; their share is bounded by a quota at the end of the run
+			t.Skip("error:" + op + ":" + firstWords(msg, 3))
 		}
 		return
 	}
@@ -607,6 +606,16 @@ func runC12(r *mon.Run) {
 		transCase(t, "value", "ln", dec.Ctx{P: 58, Emin: 0, Emax: 58, Mode: "half_even"}, x3, dec.D{})
 		t.Count("pinned")
 	})
+	if !r.IsReplay() {
+		// errors instead of results must stay rare (unchanged tree: none for exp/ln/log10, ~0.1% for pow)
+		for op, permille := range map[string]int64{"exp": 10, "ln": 10, "log10": 10, "pow": 50} {
+			if e, n := r.Hist("error/"+op), r.Hist("op/"+op); e*1000 > permille*(n+e) {
+				r.Serial("error-quota-"+op, func(t *mon.T) {
+					t.Fail("errors-instead-of-results", map[string]interface{}{"op": op, "errors": e, "results": n, "why": fmt.Sprintf("more than %d per mille of the calls returned an error instead of a value", permille)})
+				})
+			}
+		}
+	}
 	for _, k := range []string{"op/exp", "op/ln", "op/log10", "op/pow", "class/exact-by-definition", "class/overflow-reported", "class/underflow-reported", "err/0-0.5ulp", "exp-long-argument", "range-edge/exp", "range-edge/pow"} {
 		r.Require(k, 100)
 	}
